@@ -140,7 +140,10 @@ theorem reachable_noFault_partial (hc : CfgOK cfg) (h : Reachable cfg g) {op : O
     ∀ f, step cfg g op resps = .error f → ¬ Fault.isBug f :=
   noFault_step hcov (h.inv hc) henv hans
 
-/-- TARGET (not proved): the same for every constructor, i.e. also for `onClaimed (grow/deallocate/shrink)`.
+/-- RESOLVED — FALSE AS STATED: `C10.reachable_noFault_target_fails` (Props/Targets.lean; witness: `EnvOK` allows a
+    grant that covers the model's `dummyAddr`) and the corrected FULL no-fault theorem `C10.reachable_noFault_corrected`
+    (every covered operation with truthful hints, from states reached with grants at or below `2^62`).  Original comment:
+    TARGET (not proved): the same for every constructor, i.e. also for `onClaimed (grow/deallocate/shrink)`.
     Missing there: nothing in `Inv` or `EnvOK` says that the base allocator never hands out memory at the
     address of the static dummy chunk header (`dummyAddr`); a live block at that address would pass the
     `is_last` test of the claimed handle.  Proved under that explicit hypothesis as
